@@ -304,7 +304,14 @@ NAMES = ['fast_choice.cover', 'fast_choice.noraise', 'fast_choice.interval', 'fa
 
 
 def obligations(tier):
-    return [Ob('C07.' + n, ob, dict(which=n), timeout=60) for n in NAMES]
+    obs = [Ob('C07.' + n, ob, dict(which=n), timeout=60) for n in NAMES]
+    # belief-propagation channel probabilities handed to the third-party decoder objects: the sector wiring / prior-value obligation of C05, claimed here for the
+    # clause "priors handed to decoders are exactly the per-qubit X-flip and Z-flip marginals" (same VC, generated from BeliefPropagationOSDDecoder.decode)
+    from props.C05 import ob_bposd
+    for css in (True, False):
+        for cu in ((False, True) if css else (False,)):
+            obs.append(Ob('C07.priors.bposd[css=%s,channel_update=%s]' % (css, cu), ob_bposd, dict(is_css=css, channel_update=cu), timeout=60, kind='plain'))
+    return obs
 
 
 # ------------------------------------------------------------------------------------------------ native layer
@@ -312,10 +319,47 @@ from bounded.util import frac, toint, StubRng, all_code_classes, deformation_var
 from bounded import noise as N    # noqa
 
 
+def native_bposd_priors(cname, size, code_defo, noise_defo, direction, prate):
+    """channel probabilities actually loaded into the ldpc decoder objects by one decode() = flip marginals of the real noise model, in the column order of the
+    matrix each object was built from (CSS: x_decoder <- X-flip marginal, z_decoder <- Z-flip marginal; non-CSS [H_X | H_Z]: first n columns <- Z-flip, last n <- X-flip)"""
+    import io, contextlib
+    from panqec.error_models import PauliErrorModel
+    from panqec.decoders import BeliefPropagationOSDDecoder
+    import panqec.codes as C
+    code = getattr(C, cname)(*size)
+    if code_defo:
+        code.deform(code_defo)
+    em = PauliErrorModel(*direction, deformation_name=noise_defo)
+    dec = BeliefPropagationOSDDecoder(code, em, prate, max_bp_iter=10, osd_order=0)
+    with contextlib.redirect_stdout(io.StringIO()):
+        dec.decode(np.zeros(code.n_stabilizers, dtype=np.uint8))
+    pi, px, py, pz = em.probability_distribution(code, prate)
+    fx, fz = np.asarray(px + py, dtype=float), np.asarray(pz + py, dtype=float)
+    if code.is_css:
+        got = [('x_decoder', np.asarray(dec.x_decoder.channel_probs, dtype=float), fx), ('z_decoder', np.asarray(dec.z_decoder.channel_probs, dtype=float), fz)]
+    else:
+        got = [('decoder', np.asarray(dec.decoder.channel_probs, dtype=float), np.hstack([fz, fx]))]
+    for nm, g, w in got:
+        if g.shape != w.shape or not np.allclose(g, w, rtol=1e-9, atol=1e-12):
+            k = int(np.argmax(np.abs(g - w))) if g.shape == w.shape else 0
+            return '%s.channel_probs[%d] = %r, the flip marginal of that column is %r' % (nm, k, float(g[k]) if g.shape == w.shape else g.shape, float(w[k]))
+    return None
+
+
+BP_PRIOR_CASES = [('Toric2DCode', (3, 4), 'XZZX', None, (0.1, 0.2, 0.7)), ('Planar2DCode', (3, 3), 'XZZX', None, (0.7, 0.1, 0.2)), ('Toric2DCode', (3, 3), None, None, (0.1, 0.2, 0.7)),
+                  ('Toric2DCode', (3, 3), None, 'XZZX', (0.1, 0.2, 0.7)), ('Toric2DCode', (2, 3), 'XY', 'XY', (0.6, 0.3, 0.1)), ('RotatedPlanar2DCode', (3, 3), 'XZZX', 'XZZX', (0.05, 0.05, 0.9))]
+
+
 def replay(r):
     """turn the solver's counter-model into a concrete input of the real function and evaluate the contract natively"""
     m = r.get('model') or {}
     grp = r['name'].split('.')[1]
+    if grp == 'priors':
+        for cname, size, cd, nd, direction in BP_PRIOR_CASES:
+            why = native_bposd_priors(cname, size, cd, nd, direction, 0.1)
+            if why:
+                return dict(confirmed=True, input=dict(code=cname, size=list(size), code_deformation=cd, noise_deformation=nd, direction=list(direction), error_rate=0.1), detail=why)
+        return dict(confirmed=False, detail='the channel probabilities loaded into the ldpc objects are the flip marginals on %d (code, deformation, noise) cases' % len(BP_PRIOR_CASES))
     if grp == 'fast_choice':
         ps = [frac(m.get('q%d' % k)) for k in range(4)]; u = frac(m.get('u'))
         why = N.nat_fast_choice(ps, u)
@@ -412,11 +456,19 @@ def bounded(tier, seed):
         corr = [rnd.randint(0, 1) for _ in range(k)]
         for d in ('z->x', 'x->z'):
             rec('update', dict(correction=corr, px=px, py=py, pz=pz, direction=d), N.nat_update(corr, px, py, pz, d), True)
+    for cname, size, cd, nd, direction in BP_PRIOR_CASES:
+        for prate in ((0.1,) if tier == 'quick' else (0.02, 0.1, 0.3)):
+            inp = dict(code=cname, size=list(size), code_deformation=cd, noise_deformation=nd, direction=list(direction), error_rate=prate)
+            try:
+                why = native_bposd_priors(cname, size, cd, nd, direction, prate)
+            except Exception as e:      # noqa
+                why = 'raises %s: %s' % (type(e).__name__, e)
+            rec('bp_priors', inp, why, True)
     seen, v2 = set(), []
     for v in viol:
         if v['obligation'] not in seen:
             seen.add(v['obligation']); v2.append(v)
-    return dict(bound='fast_choice: %d random distributions x boundary draws; every code class at <= %d sizes with n <= %d x every deformation/axis x 3-5 directions x p in {0,0.2,1}; update_probabilities on random tables' % (200 if tier == 'quick' else 2000, 2 if tier == 'quick' else 6, maxn),
+    return dict(bound='BP-OSD channel probabilities read back from the ldpc objects on 6 (code, code deformation, noise deformation, direction) cases; fast_choice: %d random distributions x boundary draws; every code class at <= %d sizes with n <= %d x every deformation/axis x 3-5 directions x p in {0,0.2,1}; update_probabilities on random tables' % (200 if tier == 'quick' else 2000, 2 if tier == 'quick' else 6, maxn),
                 evaluations=ev, distinct_nontrivial=len(nt),
                 rule='run-time contracts (bounded/noise.py) on the real fast_choice / probability_distribution / generate / get_weights / update_probabilities; '
                      'non-trivial: deformed biased models with p>0, boundary draws, random tables',
